@@ -152,6 +152,33 @@ let run (t : string list) : string =
         let cmd = { Validate.sc_type = the_type; sc_ctx = bytes_of_hex ctx; sc_payload = parse_json js } in
         let r = Validate.store_check reg2 cmd in
         Printf.sprintf "D1=%s D2=%s S=%s %s" (def_name d1) (def_name d2) (res_name r) (observe reg2 cmd r)
+    | ["store_life"; ops] ->
+        (* a history on one data directory: D<type hex>:<schema>  X<hex of a DEFINE line that does not parse>
+           R (restart after kill)  C (restart after clean exit)  S<type hex>:<ctx hex>:<json>, joined by ';' *)
+        let ps = ref SchemaReg.ps_init in
+        let one op =
+          let body = Stdlib.String.sub op 1 (Stdlib.String.length op - 1) in
+          match op.[0] with
+          | 'D' ->
+              let i = Stdlib.String.index body ':' in
+              let et = bytes_of_hex (Stdlib.String.sub body 0 i) in
+              let cs = parse_schema (Stdlib.String.sub body (i + 1) (Stdlib.String.length body - i - 1)) in
+              let (ps', e) = SchemaReg.define_p !ps et cs in
+              ps := ps';
+              (match e with
+               | None -> "D=OK"
+               | Some SchemaReg.AlreadyDefined -> "D=AlreadyDefined"
+               | Some SchemaReg.EmptySchema -> "D=EmptySchema")
+          | 'X' -> "D=PARSE"
+          | 'R' | 'C' -> ps := SchemaReg.restart_p !ps; "R"
+          | 'S' ->
+              (match Stdlib.String.split_on_char ':' body with
+               | [et; ctx; js] ->
+                   let cmd = { Validate.sc_type = bytes_of_hex et; sc_ctx = bytes_of_hex ctx; sc_payload = parse_json js } in
+                   "S=" ^ res_name (Validate.store_check !ps.SchemaReg.ps_reg cmd)
+               | _ -> raise Bad)
+          | _ -> raise Bad in
+        Stdlib.String.concat "," (Stdlib.List.map one (Stdlib.String.split_on_char ';' ops))
     | _ -> "UNKNOWN_PROBE"
   with Bad -> "GENBUG json"
 
